@@ -152,3 +152,39 @@ contract(
              "us()[1] == (spec.msgrouter.route_segments([]) if path == '10.0.0.1/bp/2' else "
              "spec.msgrouter.route_segments([(1, b'\\x01'), (2, b'192.168.1.7')]))", "result.value == b'ok'"],
     props=["C14", "C15"])
+
+# ---- LogixDriver initialisation after open(): identify the target, read the controller info, the program name (not on a
+# Micro800), drop the trailing backplane hop for a Micro800, use instance ids from revision 21 on (never on a Micro800)
+_ID = "spec.identity.identity_bytes(1, 14, 55, major, 3, b'\\x30\\x60', 0xC0FFEE, pname)"
+_LI = ("b'\\x63\\x00' + spec.cip_codec.le_uint(2 + len(item), 2) + bytes(20) + b'\\x01\\x00' + item")
+for _kind, _pname, _micro in (("logix", "'1756-L83E/B'", False), ("micro800", "'2080-LC50-48QWB'", True)):
+    _replies = ["li", f"spec.msgrouter.unconnected_reply(0x01, 0, {_ID})"]
+    if not _micro:
+        _replies += ["spec.env.forward_open_reply(True, 0, cid)", "spec.msgrouter.connected_reply(0x01, 0, spec.cip_codec.encode_string('STRING', prog))"]
+    contract(
+        id=f"logix.initialize.{_kind}", func="pycomm3.logix_driver.LogixDriver._initialize_driver",
+        call="d._initialize_driver(init_tags=False, init_program_tags=False)",
+        bind={"path": ["'10.0.0.1'", "'10.0.0.1/bp/3'", "'10.0.0.1/bp/1/enet/192.168.1.7/bp/0'"]},
+        params={"session": P.int(1, 0xFFFFFFFF), "cid": P.bytes(len=4), "major": P.int(0, 255), "prog": P.str(maxcp=0x7F, maxlen=40)},
+        setup=["d = pycomm3.logix_driver.LogixDriver(path)", "d._session = session", "d._connection_opened = True", f"pname = {_pname}",
+               f"item = spec.identity.list_identity_item(1, b'\\x0a\\x00\\x00\\x01', {_ID}, 3)", f"li = {_LI}",
+               "before = pycomm3.cip.data_types.PADDED_EPATH.encode(d._cfg['cip_path'], length=True, pad_length=True)",
+               "hops = len(d._cfg['cip_path'])",
+               "t = spec.env.Transport([" + ", ".join(_replies) + "])", "d._sock = t"],
+        ensures=[f"d._micro800 == {_micro}", f"d._cfg['use_instance_ids'] == ({'False' if _micro else 'major >= 21'})",
+                 "d._info['product_name'] == pname and d._info['revision'] == {'major': major, 'minor': 3}",
+                 f"spec.env.frame_kinds(t.sent) == ['list-identity', 'ucmm'" + ("" if _micro else ", 'fo-large', 'connected'") + "]",
+                 ("len(d._cfg['cip_path']) == max(hops - 1, 0)" if _micro else
+                  "pycomm3.cip.data_types.PADDED_EPATH.encode(d._cfg['cip_path'], length=True, pad_length=True) == before"),
+                 ("True" if _micro else "d._info['name'] == prog")],
+        props=["C14", "C10", "C15"], max_paths=20000)
+# LogixDriver.open(): initialisation runs exactly when the session was granted
+for _granted in (True, False):
+    contract(
+        id=f"logix.open.{'granted' if _granted else 'refused'}", func="pycomm3.logix_driver.LogixDriver.open", call="d.open()",
+        params={"session": P.int(1, 0xFFFFFFFF)},
+        setup=["d = pycomm3.logix_driver.LogixDriver('10.0.0.1')", "inits = []", "d._initialize_driver = lambda **kw: inits.append(kw)",
+               f"t = spec.env.Transport([spec.env.register_reply(session, {0 if _granted else 1})])", "pycomm3.cip_driver.Socket = lambda timeout: t"],
+        ensures=[f"result == {_granted}", f"inits == {[{'init_tags': True, 'init_program_tags': True}] if _granted else []}",
+                 "d.connected == True", "spec.env.frame_kinds(t.sent) == ['register']"],
+        props=["C10", "C14"])
